@@ -148,3 +148,65 @@ package minersc
 //@   at-call reduce assert[enough-sharders] len($arg0) >= gn.MinS
 //@   ensures[selection-always-reduces] err == nil ==> $reduceCalls == old($reduceCalls) + 1
 //@   modifies everything
+
+// ---------------------------------------------------------------- governance: update_settings / update_globals (C48)
+// The miner contract's global node is written back by update_settings only for the owner recorded in
+// it BEFORE the changes are applied, only after every change was applied without error, and only in a
+// state that passed GlobalNode.validate() after the last change. ($cfgValid: chain/state contracts.)
+//@ func (*GlobalNode).update
+//@   trusted
+//@   modifies gn.$all, $cfgValid
+//@   ensures !$cfgValid[obj(gn)]
+//@   ensures forall o int :: o != obj(gn) ==> $cfgValid[o] == old($cfgValid[o])
+//@ func (*GlobalNode).validate
+//@   trusted
+//@   modifies $cfgValid
+//@   ensures $cfgValid[obj(gn)] == (result == nil)
+//@   ensures forall o int :: o != obj(gn) ==> $cfgValid[o] == old($cfgValid[o])
+// Get(OwnerId) yields the owner id (a 40-case switch over the setting enumeration behind a lookup in
+// the package-level SettingName table: trusted for this one key)
+//@ func (*GlobalNode).Get
+//@   trusted
+//@   ensures key == OwnerId ==> result1 == nil && boxstr(result0) == gn.OwnerId
+//@   modifies nothing
+//@ func (*MinerSmartContract).updateSettings
+//@   prop C48
+//@   requires t != nil && balances != nil && gn != nil
+//@   at-call update assert[owner-only] gn.OwnerId == t.ClientID
+//@   at-call save assert[validated-when-saved] $arg0 == gn && $cfgValid[obj(gn)]
+//@   ensures[rejected-change-saves-nothing] err != nil ==> $nsaved == old($nsaved)
+
+// update_globals: the chain-wide settings record is written only for the miner contract's owner, and
+// GlobalSettings.update changes only entries whose key is a known global setting marked mutable and
+// whose new value parses as the setting's type - whatever it returns (an error part-way leaves earlier
+// entries changed in memory; the caller then saves nothing).
+//   gs_known(k) / gs_mutable(k) / gs_parses(k, v): k is in config.GlobalSettingInfo / marked Mutable /
+//   StringToInterface(v, type of k) succeeds
+//@ func getGlobalSettings
+//@   trusted
+//@   ensures result1 == nil ==> result0 != nil && fresh(result0) && result0.Fields != nil
+//@   modifies nothing
+//@ func getStringMapFromViper
+//@   trusted
+//@   ensures result != nil
+//@   modifies nothing
+//@ uf gs_parses (Str Int) Bool
+//@ assume func 0chain.net/core/config.StringToInterface
+//@   params input iType
+//@   pure
+//@   ensures result1 == nil ==> gs_parses(input, iType)
+//@ func (*GlobalSettings).update
+//@   prop C48
+//@   requires gl != nil && gl.Fields != nil
+//@   ensures[only-known-mutable-parsable-entries-change] forall k string :: (k in gl.Fields) && (!old(k in gl.Fields) || gl.Fields[k] != old(gl.Fields[k])) ==> (k in config.GlobalSettingInfo) && config.GlobalSettingInfo[k].Mutable && gs_parses(gl.Fields[k], config.GlobalSettingInfo[k].SettingType)
+//@   ensures[no-entry-removed] forall k string :: old(k in gl.Fields) ==> (k in gl.Fields)
+//@   modifies gl.Fields[*]
+//@   loop 1 header "for key, value := range inputMap.Fields"
+//@   loop 1 invariant forall k string :: (k in gl.Fields) && (!old(k in gl.Fields) || gl.Fields[k] != old(gl.Fields[k])) ==> (k in config.GlobalSettingInfo) && config.GlobalSettingInfo[k].Mutable && gs_parses(gl.Fields[k], config.GlobalSettingInfo[k].SettingType)
+//@   loop 1 invariant forall k string :: old(k in gl.Fields) ==> (k in gl.Fields)
+//@ func (*MinerSmartContract).updateGlobals
+//@   prop C48
+//@   requires txn != nil && balances != nil && gn != nil
+//@   at-call update assert[owner-only] gn.OwnerId == txn.ClientID
+//@   at-call save assert[owner-only-when-saved] gn.OwnerId == txn.ClientID
+//@   ensures[rejected-change-saves-nothing] err != nil ==> $nsaved == old($nsaved)
